@@ -280,6 +280,36 @@ fn run(ctx: &Ctx) -> Report {
         text.push_str(&format!("double total{}() {{ return {}; }}\n", block, sum.join(" + ")));
         directed.push(text);
     }
+    // texture gather methods in every form the front end knows (colour channel x comparison x no / one / four offsets x status),
+    // one program per call: what the exporter writes for an intrinsic has to be a call the front end resolves again
+    for (tex, coord) in [("Texture2D<float4> tex;", "float2 uv"), ("Texture2DArray<float4> tex;", "float3 uv")] {
+        for channel in ["", "Red", "Green", "Blue", "Alpha"] {
+            for cmp in [false, true] {
+                for offsets in [0usize, 1, 4] {
+                    for status in [false, true] {
+                        let method = format!("Gather{}{}", if cmp { "Cmp" } else { "" }, channel);
+                        let mut args = vec![if cmp { "cs".to_string() } else { "ss".to_string() }, "uv".to_string()];
+                        if cmp {
+                            args.push("0.5f".to_string());
+                        }
+                        for k in 0..offsets {
+                            args.push(format!("int2({}, {})", k % 2, k / 2));
+                        }
+                        if status {
+                            args.push("st".to_string());
+                        }
+                        directed.push(format!(
+                            "{}\nSamplerState ss;\nSamplerComparisonState cs;\nfloat4 g({})\n{{\n    uint st;\n    return tex.{}({});\n}}\n",
+                            tex,
+                            coord,
+                            method,
+                            args.join(", ")
+                        ));
+                    }
+                }
+            }
+        }
+    }
     for i in 0..directed.len() {
         cases.push(Case::Directed(i));
     }
